@@ -54,17 +54,20 @@ pub fn apply_edits(orig: &[u8], edits: &[Value]) -> Vec<u8> {
         let o = (e["o"].as_u64().unwrap_or(0) as usize).min(base.len());
         let d = (e.get("d").and_then(|d| d.as_u64()).unwrap_or(0) as usize).min(base.len() - o);
         let mut ins: Vec<u8> = vec![];
-        if let Some(c) = e.get("c").and_then(|c| c.as_array()) {
-            if c.len() == 2 {
-                let from = (c[0].as_u64().unwrap_or(0) as usize).min(orig.len());
-                let len = (c[1].as_u64().unwrap_or(0) as usize).min(orig.len() - from);
-                ins = orig[from..from + len].to_vec();
-                if let Some(ps) = e.get("p").and_then(|p| p.as_array()) {
-                    for p in ps {
-                        let rel = p[0].as_u64().unwrap_or(0) as usize;
-                        if rel < ins.len() {
-                            ins[rel] = p[1].as_u64().unwrap_or(0) as u8;
-                        }
+        let c: Vec<usize> = e
+            .get("c")
+            .and_then(|c| c.as_array())
+            .map(|a| a.iter().map(|x| x.as_u64().unwrap_or(0) as usize).collect())
+            .unwrap_or_default();
+        if c.len() == 2 {
+            let from = c[0].min(orig.len());
+            let len = c[1].min(orig.len() - from);
+            ins = orig[from..from + len].to_vec();
+            if let Some(ps) = e.get("p").and_then(|p| p.as_array()) {
+                for p in ps {
+                    let rel = p[0].as_u64().unwrap_or(0) as usize;
+                    if rel < ins.len() {
+                        ins[rel] = p[1].as_u64().unwrap_or(0) as u8;
                     }
                 }
             }
@@ -76,6 +79,17 @@ pub fn apply_edits(orig: &[u8], edits: &[Value]) -> Vec<u8> {
     base
 }
 
+/// FNV-1a (32 bit) of the input actually tested; the supervisor recomputes it from the edits
+/// with its own implementation, so a mis-applied edit is a tool error, not a silent no-op.
+pub fn fnv(b: &[u8]) -> u32 {
+    let mut h: u32 = 0x811c9dc5;
+    for x in b {
+        h ^= *x as u32;
+        h = h.wrapping_mul(0x01000193);
+    }
+    h
+}
+
 struct Honest {
     case: Case,
     bytes: Vec<u8>,
@@ -84,7 +98,7 @@ struct Honest {
 
 fn proof_task(h: &mut Honest, bytes: &[u8], acc: &[String], compare: bool) -> Value {
     let (de, proof) = deser(bytes);
-    let mut res = json!({"de": de.json(), "len": bytes.len()});
+    let mut res = json!({"de": de.json(), "len": bytes.len(), "fnv": fnv(bytes)});
     let Some(proof) = proof else {
         return res;
     };
